@@ -197,7 +197,11 @@ func CheckRange(
 
 	integerValue := new(big.Int).Set(unsignedIntegerValue)
 	if negative {
-		if minIntSign == 0 && negative {
+		// A negative value is out of range if the minimum is zero,
+		// unless the value is (negative) zero
+		if minIntSign == 0 &&
+			(unsignedIntegerValue.Sign() != 0 || fractionalValue.Sign() != 0) {
+
 			return false
 		}
 
